@@ -47,6 +47,7 @@ fn main() {
         "csv" => tools::csv(&args[2..]),
         "threads" => tools::threads(&args[2..]),
         "sizes" => tools::sizes(),
+        "c08sweep" => tools::c08sweep(),
         _ => {
             eprintln!("unknown command");
             std::process::exit(2);
